@@ -623,7 +623,7 @@ def mutate_invalid(rng, schema):
              'sorted_nonvector', 'enum_out_of_range', 'enum_dup_name', 'enum_default_undefined', 'empty_struct', 'nested_not_ubyte',
              'nested_unknown', 'base64_not_ubyte', 'array_in_table', 'array_len_zero', 'root_unknown', 'root_enum', 'struct_table_field',
              'union_enum_member', 'string_default', 'struct_too_large', 'int_default_range', 'bit_flags_range', 'sorted_no_key',
-             'union_vector_sorted', 'rpc_struct', 'vector_of_vector', 'char_scalar', 'missing_include', 'union_id_conflict']
+             'union_vector_sorted', 'rpc_struct', 'rpc_scalar', 'vector_of_vector', 'char_scalar', 'missing_include', 'union_id_conflict']
     rng.shuffle(rules)
     T, S, E = _tables(s), _structs(s), _enums(s)
     root = s.files[0]
@@ -779,6 +779,16 @@ def mutate_invalid(rng, schema):
             V = [d for d in s.all_decls() if d.kind == 'rpc_service']
             if V and S:
                 v = rng.choice(V); v.calls.append(('CallBad9', rng.choice(S), v.calls[0][2])); return s, rule
+        if rule == 'rpc_scalar':
+            V = [d for d in s.all_decls() if d.kind == 'rpc_service']
+            if V:
+                v = rng.choice(V)
+                class _Scalar:      # renders as a scalar type name where a table reference is required
+                    ns = []; name = rng.choice(['long', 'string', 'ubyte', 'float'])
+                    def qname(self): return self.name
+                if rng.random() < 0.5: v.calls.append(('CallBad8', _Scalar(), v.calls[0][2]))
+                else: v.calls.append(('CallBad8', v.calls[0][1], _Scalar()))
+                return s, rule
         if rule == 'vector_of_vector' and T:
             t = rng.choice(T); t.fields.append({'name': 'fvv9', 'type': ('vec', ('vec', ('scalar', 'int')))})
             if any(f.get('id') is not None for f in t.fields): mk_ids(t)
